@@ -41,7 +41,6 @@ class Module:
         self.funcs = {}        # qualified (within module) -> Func
         self.classes = {}      # class name -> ast.ClassDef
         self.globals = {}      # module-level assigned names -> value ast
-        self._scan()
 
     def _scan(self):
         for st in self.tree.body:
@@ -109,6 +108,24 @@ class Project:
                 modname = modname[:-9]
             self.modules[modname] = Module(modname, rel, src)
             self.modules[modname].project = self
+        # public names (re-exported by the package __init__) are anchors; everything else is a private helper and is
+        # inlined into its callers before the analysis (sa/inline.py)
+        public = set()
+        init = self.modules.get(package)
+        if init is not None:
+            for st in init.tree.body:
+                if isinstance(st, ast.ImportFrom):
+                    for a in st.names:
+                        public.add(a.asname or a.name)
+        self.inlined_calls = 0
+        if public:
+            from .inline import inline_project
+            try:
+                self.inlined_calls = inline_project({m.name: m.tree for m in self.modules.values()}, public)
+            except RecursionError:
+                raise AnalysisError("helper inlining exceeded the recursion limit")
+        for m in self.modules.values():
+            m._scan()
         self.funcs = {}
         for m in self.modules.values():
             for q, f in m.funcs.items():
@@ -826,7 +843,13 @@ class TermBuilder:
         if isinstance(e, ast.Name):
             return self.var(e.id)
         if isinstance(e, ast.Attribute):
-            return ('attr', b(e.value), e.attr)
+            base = b(e.value)
+            if e.attr == 'size' and base[0] == 'sub' and base[2] == ('c', 0) and base[1][0] == 'call' and \
+                    base[1][1][0] == 'g' and base[1][1][1] in ('numpy.where', 'numpy.nonzero'):
+                return ('call', ('g', 'builtins.len'), (base,), ())     # where(c)[0].size is len(where(c)[0])
+            if e.attr == 'size' and base[0] == 'call' and base[1] == ('g', 'numpy.flatnonzero'):
+                return ('call', ('g', 'builtins.len'), (base,), ())
+            return ('attr', base, e.attr)
         if isinstance(e, ast.Subscript):
             base, idx = b(e.value), self._index(e.slice)
             return subscript(base, idx)
